@@ -8,7 +8,7 @@
 From Coq Require Import String.
 From PS Require Import Base.Bytes Base.Result Model.Converter Model.Command Model.Ctor Model.InitCdb Model.CorrUtil.
 From PS Require Import Proofs.CtorSound Proofs.CdbSpec Proofs.CtorBuffers Proofs.Ata Proofs.Opcodes.
-From PS Require Import Spec.SAM Spec.CdbFormats Gen.Tables Gen.Ctors.
+From PS Require Import Spec.SAM Spec.CdbFormats Gen.Tables Gen.Ctors Model.Facade Proofs.FacadeState Gen.FacadeTbl.
 Open Scope string_scope.
 Open Scope N_scope.
 
@@ -87,3 +87,21 @@ Proof.
   intros f Hf He. unfold ata_refusals_ok in A, B. rewrite forallb_forall in A, B.
   specialize (A f Hf). specialize (B f Hf). rewrite He in A, B. split; assumption.
 Qed.
+
+(* THE FACADE'S BLOCK SIZE IS THE ONE STORED LAST.  The stores every function of class SCSI performs on the facade
+   object are REGENERATED; for every sequence of attach / re-attach / block-size stores / command calls, the block size
+   the command methods hand to the constructors (FBlocksize) is the value stored last — so a block size that was
+   cleared (set to 0) reaches the constructor as 0 and the request is refused by C17_blocksize. *)
+Theorem C17_facade_state_side_condition : blocksize_state_ok facade_state_writes facade_blocksize_get = true.
+Proof. vm_compute. reflexivity. Qed.
+
+Theorem C17_facade_blocksize_is_last_stored : forall ops st, forallb op_ok ops = true ->
+  blocksize_seen facade_blocksize_get (fold_left (fstep facade_state_writes) ops st) =
+  last_blocksize (blocksize_seen facade_blocksize_get st) ops.
+Proof. exact (blocksize_is_last_stored _ _ C17_facade_state_side_condition). Qed.
+
+Example C17_example_cleared_blocksize :
+  blocksize_seen facade_blocksize_get
+    (fold_left (fstep facade_state_writes) [FoInit CNone (CInt 512); FoMethod "read10"; FoCall CNone; FoSetBlocksize (CInt 0); FoMethod "inquiry"] []) =
+  Some (CInt 0).
+Proof. vm_compute. reflexivity. Qed.
